@@ -142,6 +142,11 @@ func VerifHarness_C08_step() {
 			sawLogout = true
 		}
 	}
+	if sawLogout {
+		// once the engine's Logout is on the wire the session no longer counts as logged on: the send paths and the
+		// logout timer key on that, so a state that stays "logged on" would let application messages follow the Logout
+		verifAssert(!isLoggedOn, "not-logged-on-once-our-logout-is-sent")
+	}
 	verifAssert(r.app.fromAppOutsideLogon == 0, "fromapp-only-between-logon-and-logout-notifications")
 	if wasConnected && !isConnected {
 		if hadLogon {
